@@ -16,7 +16,7 @@ func (*C13) ID() string     { return "C13" }
 func (*C13) Level() string  { return "fault_enumeration" }
 func (*C13) Engine() string { return "CONC" }
 func (*C13) Rule() string {
-	return "exhaustive core: for each of N configurations (1-3 normal, 1-3 error, 0-2 per-severity writers; logger level Error/Warn/Info/Debug; a sequence of 3-4 calls over the severity classes) every assignment of {succeed, fail} to the first K Write attempts of the episode (quick K=8, thorough K=10), followed by a fault-free tail; sampled part: longer call sequences with all fault kinds (error, partial write with error, short write without error, stalled device), faults aimed at the diagnostic's own write, 1-4 caller tasks under the seeded scheduler; per call: normal return, every non-failing selected destination has the whole record exactly once, at most one diagnostic and only at the warning destinations, attempt budget, nothing anywhere else; tail: full delivery; distinct = (configuration, fault assignment); non-trivial = a fault fired inside a call with >= 2 selected destinations, or on the diagnostic's own write"
+	return "exhaustive core: for each of N configurations (1-3 normal, 1-3 error, 0-2 per-severity writers; logger level Error/Warn/Info/Debug; a sequence of 3-4 calls over the severity classes) every assignment of {succeed, fail} to the first K Write attempts of the episode (quick K=8, thorough K=10), followed by a fault-free tail; sampled part: longer call sequences with all fault kinds (error, partial write with error, short write without error, stalled device), faults aimed at the diagnostic's own write, 1-4 caller tasks under the seeded scheduler; per call: normal return, every non-failing selected destination has the whole record exactly once, at most one diagnostic and only at the warning destinations, attempt budget, nothing anywhere else; tail: full delivery; distinct = (configuration, fault assignment); non-trivial = a fault fired inside a call with >= 2 selected destinations, or on the diagnostic's own write; one configuration in five registers a destination a second time in the same list (1..k attempts are accepted for a destination registered k times, every other destination exactly one)"
 }
 
 func c13K(tier string) int {
